@@ -21,7 +21,7 @@ func init() {
 			ruleB5echo(c)
 			ruleS2S3(c)
 		},
-		explanation: "Decides the structure of split synchronization: every slice expression of the sender's chunk walk is proved in bounds by an inductive argument over the retry/advance loop (n <= len(list) holds on every edge into the loop head, including the edge that carries the recalculated chunk sizes); each list's chunk upper bound and advance lower bound are the same value and the 'more' flag is exactly 'something is left of either list' for those bounds; a non-final chunk whose reply carries updates or a different 'more' fails the sync before the lists are advanced; a plugin whose synchronization fails is never activated (both activation sites); the receiver appends both lists to the stored ones in order under the stub lock, takes-and-clears the stored request, calls the handler exactly once with the concatenation and wires its results to the response. The chunk walk ends on the sender's own More flag, never on the reply's. A per-message count that the retry scales down to zero is raised to one while its list is non-empty, so every accepted non-final chunk advances every non-empty list. Every response the stub builds for a chunk echoes the request's More flag; a failing synchronization closes the plugin.",
+		explanation: "Decides the structure of split synchronization: every slice expression of the sender's chunk walk is proved in bounds by an inductive argument over the retry/advance loop (n <= len(list) holds on every edge into the loop head, including the edge that carries the recalculated chunk sizes); each list's chunk upper bound and advance lower bound are the same value and the 'more' flag is exactly 'something is left of either list' for those bounds; a non-final chunk whose reply carries updates or a different 'more' fails the sync before the lists are advanced; a plugin whose synchronization fails is never activated (both activation sites); the receiver appends both lists to the stored ones in order under the stub lock, takes-and-clears the stored request, calls the handler exactly once with the concatenation and wires its results to the response. The chunk walk ends on the sender's own More flag, never on the reply's. A per-message count that the retry scales down to zero is raised to one while its list is non-empty, so every accepted non-final chunk advances every non-empty list. Every response the stub builds for a chunk echoes the request's More flag; a failing synchronization closes the plugin. The retry recomputes the counts of the rejected message; the split-reply check applies to non-final chunks only.",
 		notDecided: []string{
 			"the arithmetic of the shrink factor and hence termination of the retry loop (numeric)",
 			"transport limits and the sizes of real objects",
@@ -237,6 +237,20 @@ func ruleB3(c *Ctx) {
 			if !updT.Block().Dominates(a.Block()) {
 				bad = "the lists are advanced without the reply having been checked"
 			}
+		}
+		// … and only to those: the reply to the last (or only) chunk is where the plugin's updates legitimately arrive
+		nonFinal := false
+		for _, cd := range controls(updT.Block()) {
+			cd = normCond(cd)
+			a := m.ap(cd.V)
+			if len(a.Path) > 0 && a.Path[len(a.Path)-1] == "More" && cd.Pol {
+				if _, isAlloc := a.Root.(*ssa.Alloc); isAlloc {
+					nonFinal = true
+				}
+			}
+		}
+		if !nonFinal && bad == "" {
+			bad = "the check for updates / an echoed More flag also runs on the reply to the final chunk: a plugin that returns updates from its Synchronize handler is rejected and closed, its updates never reach the runtime"
 		}
 	}
 	pos := f.Pos()
@@ -636,6 +650,32 @@ func ruleB7(c *Ctx) {
 			}
 		}
 		return false
+	}
+	// the scale factor describes the message just rejected: it is applied to that message's counts (the values used
+	// as the chunks' upper bounds), not to what is left of the lists
+	{
+		var his []ssa.Value
+		for _, b := range f.Blocks {
+			for _, in := range b.Instrs {
+				if sl, ok := in.(*ssa.Slice); ok && sl.High != nil && sl.Low == nil {
+					his = append(his, sl.High)
+				}
+			}
+		}
+		okArgs := len(rcall.Call.Args) >= 2
+		for i := 0; i < 2 && okArgs; i++ {
+			found := false
+			for _, h := range his {
+				if h == rcall.Call.Args[i] {
+					found = true
+				}
+			}
+			if !found {
+				okArgs = false
+			}
+		}
+		c.ok("B7", "recalc-from-sent-counts", rcall.Pos(), okArgs, "the retry recomputes the counts of the rejected message",
+			"recalcObjsPerSyncMsg is not given the per-message counts the rejected chunk was built with (the upper bounds of the two chunk slices): scaled from anything else — e.g. the remaining totals — repeated rejections do not shrink the chunk and the walk resends an oversized message forever")
 	}
 	for k, name := range []string{"pods", "containers"} {
 		k := k
